@@ -44,7 +44,11 @@ def jobs(U):
     J.append(('standalone product', 'product_rec', 'free_join', jn))
     J.append(('standalone remap', 'remap_ref', 'free_remap', idn))
     J.append(('standalone count', 'Zdd::count_rec', 'zdd_count', cn))
+    J.append(('arena gc remap', 'ZddArena::remap_to_new_table', 'arena_remap', idn))
     return J, (A, B, V)
+
+
+GC_LIVE = [0, 1, 2]
 
 
 def run_job(mod, U, job, syms, overflow_checks=True):
@@ -111,6 +115,10 @@ def run_job(mod, U, job, syms, overflow_checks=True):
         ex.specs['local'] = lambda a: a
         ex.contracts[fname] = contract(lambda a: a, (0,))
         args = [ZRef(A), zdd, table, box(Cache('local'))]; goal = A
+    elif kind == 'arena_remap':
+        ex.specs['local'] = lambda a: a
+        ex.contracts[fname] = contract(lambda a: a, (1,))
+        args = [ar, ZRef(A), table, box(Cache('local'))]; goal = A
     elif kind == 'zdd_count':
         ex.specs['local'] = lambda a: U.card(a)
         ex.contracts[fname] = contract(lambda a: U.card(a), (1,), ret_count=True)
@@ -138,6 +146,72 @@ def run_job(mod, U, job, syms, overflow_checks=True):
     return info, ex, verdicts
 
 
+class NewTable:
+    """the table built by gc (UniqueTable::with_capacity)"""
+    def __repr__(self): return 'NewTable'
+
+
+def run_gc_job(mod, U, L):
+    """ZddArena::gc on L live handles denoting arbitrary families: the returned handles denote the same families (in the new table),
+    the arena's table is the new one, and ALL operation caches are emptied (their entries are keyed by ids of the old table)."""
+    from vlib.containers import ListModel
+    fams = [BitVec('H%d' % i, U.W) for i in range(L)]
+    cleared = []
+
+    def h_len(ex, st, callee, args):
+        v = ex.fresh('len', 64); st.path.assume(z3.ULE(v, BitVecVal(1 << 40, 64))); return v
+
+    def h_clear(ex, st, callee, args):
+        c = ex.deref(args[0])
+        if not isinstance(c, Cache): raise symex.Unsupported('clear on %r' % (c,))
+        c.cleared = True
+        return []
+
+    def h_default_map(ex, st, callee, args): return Cache('remap')
+    def h_default_set(ex, st, callee, args): return Opaque('marked-set')
+    def h_with_cap(ex, st, callee, args): return NewTable()
+    def h_mark(ex, st, callee, args): return []
+    hooks = [(r'^UniqueTable::len$|^HashMap::<.*>::len$|^HashSet::<.*>::len$', h_len), (r'^HashMap::<.*>::clear$', h_clear),
+             (r'^<HashMap<u32, ZddRef, FxBuildHasher> as Default>::default$', h_default_map), (r'^<HashSet<.*> as Default>::default$', h_default_set),
+             (r'^UniqueTable::with_capacity$', h_with_cap), (r'^ZddArena::mark_reachable$', h_mark)]
+    specs = {'union': lambda a, b: a | b, 'intersection': lambda a, b: a & b, 'difference': lambda a, b: a & ~b, 'count': lambda a: U.card(a), 'remap': lambda a: a}
+    ex = ZddExec(mod, U, specs, extra_hooks=hooks, loop_bound=L + 3)
+
+    def c_remap(ex_, st, callee, args):
+        r = ex.deref(args[1])
+        nt = ex.deref(args[2])
+        st.path.oblige('gc remaps into the NEW table', z3.BoolVal(isinstance(nt, NewTable)), callee, 'gc')
+        return ZRef(r.F)
+    ex.contracts['ZddArena::remap_to_new_table'] = c_remap
+    arena, fields = _arena_obj(mod)
+    for c in arena:
+        if isinstance(c, Cache): c.cleared = False
+    handles = ListModel([[ZRef(f)] for f in fams])
+    st = State(roots={'arena': arena})
+    t0 = time.time()
+    results = ex.run('ZddArena::gc', [box(arena), Ptr([handles], 0, meta=BitVecVal(L, 64))], st=st)
+
+    def post(r):
+        ar = r.st.roots['arena']
+        out = []
+        for f, c in zip(fields, ar):
+            if isinstance(c, Cache):
+                out.append(('gc empties %s (its keys are ids of the old table)' % f, z3.BoolVal(bool(getattr(c, 'cleared', False)))))
+        out.append(('gc installs the new table', z3.BoolVal(isinstance(ar[fields.index('table')], NewTable) if 'table' in fields else False)))
+        rv = r.ret
+        ok = isinstance(rv, list) and len(rv) == 2 and isinstance(rv[1], ListModel) and len(rv[1].items) == L
+        out.append(('gc returns one handle per live handle', z3.BoolVal(ok)))
+        if ok:
+            for i, hnd in enumerate(rv[1].items):
+                root = hnd[0] if isinstance(hnd, list) else hnd
+                out.append(('handle %d denotes the same family after gc' % i, root.F == fams[i] if isinstance(root, ZRef) else z3.BoolVal(False)))
+        return out
+    verdicts = discharge(ex, results, post)
+    info = {'title': 'arena gc (%d live handles)' % L, 'function': 'ZddArena::gc', 'paths': len(results), 'obligations': len(verdicts), 'feasibility_queries': ex.queries,
+            'wall_s': round(time.time() - t0, 2), 'solver_s': round(ex.solver_s, 2), 'inconclusive': list(ex.inconclusive)}
+    return info, ex, verdicts
+
+
 # ------------------------------------------------------------------------------------------------ driver entry
 _MOD = None
 _N = None
@@ -151,12 +225,17 @@ def _fam_str(U, x):
 def _worker(idx):
     U = Universe(_N)
     J, syms = jobs(U)
-    job = J[idx]
     A, B, V = syms
+    if idx >= len(J):
+        L = GC_LIVE[idx - len(J)]
+        job = ('arena gc (%d live handles)' % L, 'ZddArena::gc')
+    else:
+        job = J[idx]
     try:
-        info, ex, vs = run_job(_MOD, U, job, syms)
-    except (symex.Unsupported, symex.Inconclusive) as e:
-        return {'title': job[0], 'function': job[1], 'error': str(e), 'verdicts': [], 'paths': 0, 'queries': 0, 'solver_s': 0}
+        if idx >= len(J): info, ex, vs = run_gc_job(_MOD, U, L)
+        else: info, ex, vs = run_job(_MOD, U, job, syms)
+    except Exception as e:      # any failure of the machinery is inconclusive, never a pass
+        return {'title': job[0], 'function': job[1], 'error': '%s: %s' % (type(e).__name__, e), 'verdicts': [], 'paths': 0, 'queries': 0, 'solver_s': 0}
     out = []
     for v in vs:
         d = {'name': v.name, 'status': v.status, 'secs': v.secs, 'kind': v.kind, 'where': v.where}
@@ -175,7 +254,7 @@ API = {'arena union': ('arena', 'union'), 'arena intersection': ('arena', 'inter
        'arena count (uncached)': ('arena', 'union'), 'standalone union': ('zdd', 'union'), 'standalone union helper': ('zdd', 'product'),
        'standalone intersection': ('zdd', 'intersection'), 'standalone difference': ('zdd', 'difference'),
        'standalone product_with_optional': ('zdd', 'product_with_optional'), 'standalone product': ('zdd', 'product'),
-       'standalone remap': ('zdd', 'union'), 'standalone count': ('zdd', 'union')}
+       'standalone remap': ('zdd', 'union'), 'standalone count': ('zdd', 'union'), 'arena gc remap': ('arena', 'union')}
 
 
 def run(ctx):
@@ -197,7 +276,8 @@ def run(ctx):
     U = Universe(_N)
     J, _ = jobs(U)
     with ProcessPoolExecutor(max_workers=min(14, len(J)), mp_context=mp.get_context('fork')) as pool:
-        res = list(pool.map(_worker, range(len(J))))
+        res = list(pool.map(_worker, range(len(J) + len(GC_LIVE))))
+    J = J + [('arena gc (%d live handles)' % L, 'ZddArena::gc', 'gc', None) for L in GC_LIVE]
     # cardinality lemma (|F| := popcount satisfies the facts the count obligations assume), split on the top variable
     t0 = time.time()
     lem = []
@@ -223,11 +303,17 @@ def run(ctx):
         bad = [v for v in r['verdicts'] if v['status'] == 'violated']
         if bad:
             v = bad[-1]
-            api, op = API[title]
             if binp is None: binp = replay.build('zdd')
-            f = Finding('%s:%s' % (r['function'], 'step'),
-                        '%s: %s violated for A=%s B=%s var=%s' % (r['function'], v['name'], v['A'], v['B'], v['V']),
-                        [binp, api, op, v['A'], v['B'], str(v['V'])], {'A': v['A'], 'B': v['B'], 'var': v['V'], 'obligations': [b['name'] for b in bad]})
+            if 'gc' in title:
+                # the step witness is structural (a cache survives / a handle changes): natively it is reproduced by operation
+                # sequences with interleaved collections, compared against explicit sets of sets
+                f = Finding('ZddArena::gc:%s' % v['name'][:50], '%s: %s' % (title, v['name']), [binp, 'gcseq', '5', '60', '40'],
+                            {'obligations': [b['name'] for b in bad]})
+            else:
+                api, op = API[title]
+                f = Finding('%s:%s' % (r['function'], 'step'),
+                            '%s: %s violated for A=%s B=%s var=%s' % (r['function'], v['name'], v['A'], v['B'], v['V']),
+                            [binp, api, op, v['A'], v['B'], str(v['V'])], {'A': v['A'], 'B': v['B'], 'var': v['V'], 'obligations': [b['name'] for b in bad]})
             ctx.findings.append(f)
     ctx.models += ['UniqueTable::get_node: decomposition of the denoted family at its smallest variable',
                    'UniqueTable::get_or_create: lo | addvar(hi, var), zero-suppression, ordering obligation',
